@@ -376,10 +376,8 @@ fn main() {
         "real MaskedIntReg nodes / StructReg entries parsed from generated XML for every (length in {1,2,4,8}, lsb, msb within the register) x byte order x sign, single-Bit form, malformed descriptions; min/max on every node; exhaustive in-range values (+ out-of-range neighbours) for narrow fields, boundary+random values above; boundary/random prior register contents; set_value followed by value() on the same device; sibling write histories on shared StructReg registers; a case is non-trivial when the call succeeds; distinct by full request line",
     );
 
-    // ----- replay -----
-    if let Some(path) = &args.replay {
-        let v: Value = serde_json::from_str(&std::fs::read_to_string(path).unwrap()).unwrap();
-        let rp = &v["replay"];
+    // ----- replay / corpus -----
+    fn replay_one(rp: &Value, rep: Report, camdrv: &str, rng: &mut Rng, src: &str) -> Report {
         let sp = &rp["spec"];
         let spec = Spec {
             name: "Replay".into(),
@@ -392,23 +390,38 @@ fn main() {
             addr: sp["addr"].as_str().unwrap().parse().unwrap(),
             group: if sp["struct_entry"].as_bool().unwrap() { Some(0) } else { None },
         };
-        let mut r = Runner { w: build(vec![spec.clone()]), rep, camdrv: args.camdrv.clone() };
+        let mut r = Runner { w: build(vec![spec.clone()]), rep, camdrv: camdrv.to_string() };
         let img = unhex(rp["img"].as_str().unwrap());
         let mut dev = RecDevice::new(spec.addr - PAD as i64, img.clone(), vec![]);
         let arg = rp["arg"].as_str().unwrap();
         match rp["op"].as_str().unwrap() {
-            "min" => { r.case(0, Op::Min, &mut dev, "replay"); }
-            "max" => { r.case(0, Op::Max, &mut dev, "replay"); }
-            "value" => { r.case(0, Op::Value, &mut dev, "replay"); }
-            "set" => { r.case(0, Op::Set(arg.parse().unwrap()), &mut dev, "replay"); }
+            "min" => { r.case(0, Op::Min, &mut dev, src); }
+            "max" => { r.case(0, Op::Max, &mut dev, src); }
+            "value" => { r.case(0, Op::Value, &mut dev, src); }
+            "set" => { r.case(0, Op::Set(arg.parse().unwrap()), &mut dev, src); }
             "roundtrip" => {
                 let len = spec.len.max(0) as usize;
-                r.set_and_readback(0, arg.parse().unwrap(), &img[PAD..PAD + len], &mut rng, "replay");
+                r.set_and_readback(0, arg.parse().unwrap(), &img[PAD..PAD + len], rng, src);
             }
             other => panic!("unknown replay op {other}"),
         }
-        r.rep.write(&args);
+        r.rep
+    }
+    if let Some(path) = &args.replay {
+        let v: Value = serde_json::from_str(&std::fs::read_to_string(path).unwrap()).unwrap();
+        let mut rep = replay_one(&v["replay"], rep, &args.camdrv, &mut rng, "replay");
+        rep.write(&args);
         return;
+    }
+    // minimised past failures first
+    let mut rep = rep;
+    let mut corpus: Vec<_> = std::fs::read_dir("/verif/corpus/C02").map(|d| d.filter_map(|e| e.ok()).map(|e| e.path()).collect()).unwrap_or_default();
+    corpus.sort();
+    for pth in corpus {
+        if pth.extension().map_or(false, |e| e == "json") {
+            let v: Value = serde_json::from_str(&std::fs::read_to_string(&pth).unwrap()).unwrap();
+            rep = replay_one(&v["replay"], rep, &args.camdrv, &mut rng, "corpus");
+        }
     }
 
     // ----- node table -----
@@ -456,7 +469,7 @@ fn main() {
     let n_single = specs.len();
     // StructReg groups: random partitions of a register into disjoint fields
     let mut groups: Vec<Vec<usize>> = vec![];
-    let n_groups = if thorough { 400 } else { 80 };
+    let n_groups = if thorough { 1500 } else { 300 };
     for g in 0..n_groups {
         let len = *rng.pick(&[1i64, 2, 4, 8]);
         let bits = 8 * len as u64;
@@ -537,7 +550,7 @@ fn main() {
         let olds = old_words(len, 1, &mut rng);
         for (j, v) in vals.iter().enumerate() {
             // exhaustive sweeps rotate through the prior contents, the others use several
-            let n_old = if exhaustive { 1 } else { 3 };
+            let n_old = if exhaustive { 1 } else if thorough { 3 } else { 1 + (idx % 2) };
             for t in 0..n_old {
                 let reg = if t == 0 && j % 3 == 0 { rng.bytes(len) } else { olds[(j + t) % olds.len()].clone() };
                 r.set_and_readback(idx, *v, &reg, &mut rng, if exhaustive { "set-exhaustive" } else { "set-boundary-random" });
@@ -559,7 +572,7 @@ fn main() {
         // expectation: each field holds its last written value, other bits initial
         let mut last: Vec<Option<i64>> = vec![None; members.len()];
         let initial = word_of(&reg0, s0.be);
-        let steps = if thorough { 24 } else { 10 };
+        let steps = if thorough { 30 } else { 14 };
         for _ in 0..steps {
             let j = rng.below(members.len() as u64) as usize;
             let idx = members[j];
